@@ -2,4 +2,6 @@
 import hashlib
 
 def obj_seed(obj):
-    return int(hashlib.sha1(hash(obj).to_bytes(8, 'big', signed=True)).hexdigest(), 16)
+    # repr() rather than hash(): hash() of strings (and of anything containing them)
+    # is randomised per interpreter process
+    return int(hashlib.sha1(repr(obj).encode()).hexdigest(), 16)
